@@ -32,8 +32,8 @@ CLAIMED = {
          "Trusted: Lean kernel; standard axioms; the translator (cross-checked against the real _state on the vocabulary + random strings every run); the hand-entered vocabulary/classification of scheduler states (Model/SchedVocab.lean); Python re.split/str.split/strip modelled for ASCII. Known finding: Slurm STOPPED (ST).",
          "DESIGN.md §6 C16"),
  "C08": ("proof",
-         "Lean 4 theorems on the named pieces of Model/Expand.lean (exact parameter-use detection, used-parameter closure, instance naming / sharing, attached parameters) + expansion correspondence with the real load/stage path + declarative expansion monitor on the real graph",
-         "Scanner exactness, the used-parameter closure law and the sharing theorem are proved for all inputs; the whole-graph statement (nodes and edges = declarative expansion) is decided by the independent monitor on the real ExecutionGraph and by the instance-by-instance correspondence with the model; it is not yet one refinement theorem.",
+         "Lean 4 theorems over Model/Expand.lean: the named pieces (exact parameter-use detection, used-parameter closure, instance naming / sharing, attached parameters), every placement, and the finished graph (every step staged, an instance for every row, dependency sets = the declarative expansion, adjacency table = dependency sets) by an invariant carried through the whole staging loop + expansion correspondence (graph and staging tables) with the real load/stage path + declarative expansion monitor on the real graph",
+         "For every specification that meets the validator's guarantees (distinct step names, none _source, no self funnel) and the decidable prefix check on the step names, every iteration oracle: every step is staged, every row has its instance, the dependency set of every instance is exactly what the final used_params / step_combos tables say it is owed (row by row when the instance name determines the labels), and both edge tables agree (the execution model's WFCfg.par). Outside those hypotheses the statement is false of the code (known finding C08-name-collision, proved counterexample); there the independent monitor judges the real ExecutionGraph. The model is tied to the code instance by instance and table by table on every run.",
          "Trusted: Lean kernel; standard axioms; the study-level correspondence harness; Python str()/yaml/md5 (oracle inputs to the model); re semantics of the two regular expressions modelled (ASCII \\w); names are kept ASCII by the generators. Known finding D9 (name collisions when labels contain '.'): sharing theorem carries the '.'-free hypothesis." ,
          "DESIGN.md §6 C08"),
  "C09": ("proof",
